@@ -90,6 +90,17 @@ def universe(tier, seed):
     gen = Gen(rnd, full=True)
     gs += [('random', gen.grammar(rnd.choice([2, 3]))) for _ in range(350 if tier == 'quick' else 6000)]
     gs += special_grammars()
+    # cuts (generated code has its own option/optional/closure runtime) and constants whose evaluation fails
+    from . import c05
+    cu = c05.universe('quick')
+    step = 5 if tier == 'quick' else 1
+    gs += [('cut', it['g']) for it in cu[seed % step::step]]
+    from ..absgrammar import constbad, const
+    a, b, bad, k = tok('a'), tok('b'), constbad(), const('k')
+    for e in [seq(a, alt(bad, k)), alt(seq(a, bad), a), seq(opt(seq(a, bad)), a), seq(star(seq(a, bad)), opt(a)),
+              alt(call('y'), a), seq(a, alt(seq(bad, b), b))]:
+        rules = [rule('s', e)] + ([rule('y', seq(a, bad))] if any(x['op'] == 'call' for x in subexps(e)) else [])
+        gs.append(('constbad', grammar(*rules)))
     return gs
 
 
@@ -97,8 +108,13 @@ def run(tier):
     ck = Check('C02', tier)
     gs = universe(tier, ck.seed)
     texts = all_texts(['a', 'b', ' '], 3) + [list(t) for t in ['abab', 'a b a', 'aab ', 'A b', 'aB', 'a\tb', 'ab b']]
+    cut_texts = all_texts(['a', 'b', 'c'], 4) + [list('qabc'), list('qaa'), list('qac')]
     items = []
     for i, (kind, g) in enumerate(gs):
+        if kind == 'cut':
+            items.append({'g': g, 'texts': cut_texts, 'label': 'cut/nameguard-off', 'cfg': {'nameguard': False},
+                          'settings': {'nameguard': False}, 'kind': kind})
+            continue
         for si, (sname, cfgkw, settings) in enumerate(SETTINGS):
             if si and (i + si) % 4:         # every grammar under defaults; each other setting on a quarter of the grammars
                 continue
@@ -132,6 +148,12 @@ def run(tier):
                           'observed': {'model': im['compile'], 'generated': im['gen']['compile']}, 'spec': 'C02: generated source is always valid Python'},
                          key='compile' + c['ebnf'])
             continue
+        for m in im['gen'].get('reuse_mismatch') or []:
+            ck.violation({'kind': 'history', 'inputs': {'grammar': c['ebnf'], **{k2: v for k2, v in m.items() if k2 in ('text', 'settings')}},
+                          'expected': m.get('fresh_object'), 'observed': m.get('reused_object'),
+                          'why': 'a generated parser object that was used before behaves differently from a fresh one',
+                          'spec': 'C02: same parse-time settings => same outcome (the parser object carries no parse state)'},
+                         key='reuse' + c['ebnf'])
         lastnode, defscope = in_lastnode_scope(g), in_define_scope(g)
         for t, (s, mr, gr) in enumerate(zip(spec[j], im['res'], im['gen']['res'])):
             so = spec_outcome(s)
